@@ -14,6 +14,8 @@ import (
 	"reflect"
 	"sort"
 	"strings"
+	"sync"
+	"time"
 
 	"github.com/yandex/pandora/core/config"
 	"github.com/yandex/pandora/core/plugin"
@@ -535,9 +537,185 @@ func hookPass(res *vkit.Result) {
 	}
 }
 
+// ---- pass 3: nested plugins of the same registered name, and overlapping creations ----
+//
+// A plugin's config may itself contain a plugin of the same kind and name (composite
+// schedules do), and the engine creates instances — hence guns and schedules — from several
+// goroutines at once. Every product must still see its own freshly decoded configuration.
+
+type Node interface{ Info() NodeConf }
+
+type gate string
+
+var (
+	gateMu      sync.Mutex
+	gateArrived = map[string]chan struct{}{}
+	gateRelease = map[string]chan struct{}{}
+)
+
+func gateChans(id string) (arrived, release chan struct{}) {
+	gateMu.Lock()
+	defer gateMu.Unlock()
+	if gateArrived[id] == nil {
+		gateArrived[id] = make(chan struct{})
+		gateRelease[id] = make(chan struct{})
+	}
+	return gateArrived[id], gateRelease[id]
+}
+
+// UnmarshalText blocks for values "block:<id>" until the monitor releases that id: it lets
+// the monitor hold one creation in the middle of decoding its config.
+func (g *gate) UnmarshalText(b []byte) error {
+	*g = gate(b)
+	if strings.HasPrefix(string(b), "block:") {
+		arrived, release := gateChans(string(b))
+		close(arrived)
+		<-release
+	}
+	return nil
+}
+
+type NodeConf struct {
+	Name   string `config:"name"`
+	Gate   gate   `config:"gate"`
+	Child  Node   `config:"child"`
+	Weight int    `config:"weight"`
+	Tags   []string
+}
+
+type node struct{ c NodeConf }
+
+func (n *node) Info() NodeConf { return n.c }
+
+type nodeHolder struct {
+	N Node                 `config:"n"`
+	F func() (Node, error) `config:"f"`
+}
+
+func nodeString(n Node) string { return nodeStringDepth(n, 0) }
+
+func nodeStringDepth(n Node, depth int) string {
+	if n == nil {
+		return "nil"
+	}
+	if depth > 5 {
+		return "…(deeper than the description: a cycle)"
+	}
+	c := n.Info()
+	return fmt.Sprintf("{%s w=%d tags=%v child=%s}", c.Name, c.Weight, c.Tags, nodeStringDepth(c.Child, depth+1))
+}
+
+func nestedAndOverlap(res *vkit.Result) {
+	nodeType := plugin.PtrType((*Node)(nil))
+	type shape struct {
+		name string
+		ctor any
+		def  any
+	}
+	def := func() NodeConf { return NodeConf{Weight: 7, Tags: []string{"d"}} }
+	shapes := []shape{
+		{"node-val", func(c NodeConf) Node { return &node{c} }, def},
+		{"node-val-nodefault", func(c NodeConf) Node { return &node{c} }, nil},
+		{"node-ptr", func(c *NodeConf) Node { return &node{*c} }, func() *NodeConf { d := def(); return &d }},
+		{"node-val-err", func(c NodeConf) (Node, error) { return &node{c}, nil }, def},
+		{"node-factory-val", func(c NodeConf) func() (Node, error) { return func() (Node, error) { return &node{c}, nil } }, def},
+	}
+	for _, sh := range shapes {
+		if sh.def != nil {
+			plugin.Register(nodeType, sh.name, sh.ctor, sh.def)
+		} else {
+			plugin.Register(nodeType, sh.name, sh.ctor)
+		}
+		defW := 0
+		defTags := "[]"
+		if sh.def != nil {
+			defW, defTags = 7, "[d]"
+		}
+		c := map[string]any{"shape": sh.name, "probe": "nested same-name"}
+		conf := func() map[string]any {
+			return map[string]any{"type": sh.name, "name": "outer", "weight": 3,
+				"child": map[string]any{"type": sh.name, "name": "inner", "weight": 5,
+					"child": map[string]any{"type": sh.name, "name": "innermost"}}}
+		}
+		want := fmt.Sprintf("{outer w=3 tags=%s child={inner w=5 tags=%s child={innermost w=%d tags=%s child=nil}}}", defTags, defTags, defW, defTags)
+		var h nodeHolder
+		if err := config.Decode(map[string]any{"n": conf(), "f": conf()}, &h); err != nil {
+			res.Violate("C18/nested/decode", fmt.Sprintf("decoding a plugin nested in a plugin of the same name failed: %v", err), c)
+			continue
+		}
+		if got := nodeString(h.N); got != want {
+			res.Violate("C18/nested/config", fmt.Sprintf("component built from nested config is %s, want %s", got, want), c)
+		}
+		for k := 0; k < 3; k++ {
+			p, err := h.F()
+			if err != nil || nodeString(p) != want {
+				res.Violate("C18/nested/config", fmt.Sprintf("factory product %d built from nested config is %s (err %v), want %s", k, nodeString(p), err, want), c)
+				break
+			}
+		}
+		res.Eval(vkit.JSON(c), true)
+		res.Count("form_nested", 1)
+
+		// overlapping creations: A is held in the middle of decoding its config while B is created
+		id := "block:" + sh.name
+		arrived, release := gateChans(id)
+		type out struct {
+			n   Node
+			err error
+		}
+		aDone, bDone := make(chan out, 1), make(chan out, 1)
+		go func() {
+			var ha nodeHolder
+			err := config.Decode(map[string]any{"n": map[string]any{"type": sh.name, "name": "A", "gate": id, "weight": 1}}, &ha)
+			aDone <- out{ha.N, err}
+		}()
+		c2 := map[string]any{"shape": sh.name, "probe": "overlapping creations"}
+		select {
+		case <-arrived:
+		case <-time.After(10 * time.Second):
+			res.Inconclusive(false, "%s: creation A never reached its gate", sh.name)
+			close(release)
+			continue
+		}
+		go func() {
+			var hb nodeHolder
+			err := config.Decode(map[string]any{"n": map[string]any{"type": sh.name, "name": "B", "gate": "pass", "weight": 2}}, &hb)
+			bDone <- out{hb.N, err}
+		}()
+		var b out
+		serialised := false
+		select {
+		case b = <-bDone:
+		case <-time.After(3 * time.Second):
+			// creations are serialised by the implementation: legal, nothing to judge about overlap
+			serialised = true
+		}
+		close(release)
+		a := <-aDone
+		if serialised {
+			b = <-bDone
+			res.Count("overlap_serialised", 1)
+		}
+		wantA := fmt.Sprintf("{A w=1 tags=%s child=nil}", defTags)
+		wantB := fmt.Sprintf("{B w=2 tags=%s child=nil}", defTags)
+		if a.err != nil || b.err != nil {
+			res.Violate("C18/overlap/error", fmt.Sprintf("overlapping creations failed: %v / %v", a.err, b.err), c2)
+		} else {
+			if got := nodeString(a.n); got != wantA {
+				res.Violate("C18/overlap/config", fmt.Sprintf("creation A (held while B was created) got %s, want %s", got, wantA), c2)
+			}
+			if got := nodeString(b.n); got != wantB {
+				res.Violate("C18/overlap/config", fmt.Sprintf("creation B (made while A was in progress) got %s, want %s", got, wantB), c2)
+			}
+		}
+		res.Eval(vkit.JSON(c2), true)
+		res.Count("form_overlap", 1)
+	}
+}
+
 func main() {
 	vkit.Fs() // registers the config hooks (pluginconfig.AddHooks via core import)
-	res := vkit.NewResult("exhaustive cross product of constructor shapes (component|factory × no config|struct|*struct × error result × inner error result / impl-typed result × default-config func) × requested form (New, factory with error, factory without error) × outcome (ok, constructor error, inner factory error, config error) × 1–5 factory calls with mutation of each product's config; plus every config-taking shape through the `type:` config hooks; distinct = distinct (shape, form, outcome, calls); all are non-trivial")
+	res := vkit.NewResult("exhaustive cross product of constructor shapes (component|factory × no config|struct|*struct × error result × inner error result / impl-typed result × default-config func) × requested form (New, factory with error, factory without error) × outcome (ok, constructor error, inner factory error, config error) × 1–5 factory calls with mutation of each product's config; plus every config-taking shape through the `type:` config hooks; plus plugins nested three deep in plugins of the same registered name and two overlapping creations (one held in the middle of decoding by a blocking field) for value/pointer/factory shapes; distinct = distinct (shape, form, outcome, calls); all are non-trivial")
 	n := 0
 	for _, s := range shapes() {
 		for _, form := range []string{"new", "factory-err", "factory-noerr"} {
@@ -560,6 +738,7 @@ func main() {
 		}
 	}
 	hookPass(res)
+	nestedAndOverlap(res)
 	res.Set("exhaustive", true)
 	res.Set("shapes", len(shapes()))
 	res.Sample(Case{Shape: shapes()[5], Form: "factory-noerr", Outcome: "config-error", Calls: 2})
